@@ -421,31 +421,11 @@ macro_rules! acc_choice {
 }
 
 mod lib_arities {
+    // one impl per arity the runtime crate under test provides (generated by build.rs from its sources)
     use super::generics;
     use pest_typed::choices::*;
     use pest_typed::sequence::*;
-    acc_seq!(Seq2, 2, (T0, 0), (T1, 1),);
-    acc_seq!(Seq3, 3, (T0, 0), (T1, 1), (T2, 2),);
-    acc_seq!(Seq4, 4, (T0, 0), (T1, 1), (T2, 2), (T3, 3),);
-    acc_seq!(Seq5, 5, (T0, 0), (T1, 1), (T2, 2), (T3, 3), (T4, 4),);
-    acc_seq!(Seq6, 6, (T0, 0), (T1, 1), (T2, 2), (T3, 3), (T4, 4), (T5, 5),);
-    acc_seq!(Seq7, 7, (T0, 0), (T1, 1), (T2, 2), (T3, 3), (T4, 4), (T5, 5), (T6, 6),);
-    acc_seq!(Seq8, 8, (T0, 0), (T1, 1), (T2, 2), (T3, 3), (T4, 4), (T5, 5), (T6, 6), (T7, 7),);
-    acc_seq!(Seq9, 9, (T0, 0), (T1, 1), (T2, 2), (T3, 3), (T4, 4), (T5, 5), (T6, 6), (T7, 7), (T8, 8),);
-    acc_seq!(Seq10, 10, (T0, 0), (T1, 1), (T2, 2), (T3, 3), (T4, 4), (T5, 5), (T6, 6), (T7, 7), (T8, 8), (T9, 9),);
-    acc_seq!(Seq11, 11, (T0, 0), (T1, 1), (T2, 2), (T3, 3), (T4, 4), (T5, 5), (T6, 6), (T7, 7), (T8, 8), (T9, 9), (T10, 10),);
-    acc_seq!(Seq12, 12, (T0, 0), (T1, 1), (T2, 2), (T3, 3), (T4, 4), (T5, 5), (T6, 6), (T7, 7), (T8, 8), (T9, 9), (T10, 10), (T11, 11),);
-    acc_choice!(Choice2, 2, (T0, _0, 0), ; (T1, _1, 1));
-    acc_choice!(Choice3, 3, (T0, _0, 0), (T1, _1, 1), ; (T2, _2, 2));
-    acc_choice!(Choice4, 4, (T0, _0, 0), (T1, _1, 1), (T2, _2, 2), ; (T3, _3, 3));
-    acc_choice!(Choice5, 5, (T0, _0, 0), (T1, _1, 1), (T2, _2, 2), (T3, _3, 3), ; (T4, _4, 4));
-    acc_choice!(Choice6, 6, (T0, _0, 0), (T1, _1, 1), (T2, _2, 2), (T3, _3, 3), (T4, _4, 4), ; (T5, _5, 5));
-    acc_choice!(Choice7, 7, (T0, _0, 0), (T1, _1, 1), (T2, _2, 2), (T3, _3, 3), (T4, _4, 4), (T5, _5, 5), ; (T6, _6, 6));
-    acc_choice!(Choice8, 8, (T0, _0, 0), (T1, _1, 1), (T2, _2, 2), (T3, _3, 3), (T4, _4, 4), (T5, _5, 5), (T6, _6, 6), ; (T7, _7, 7));
-    acc_choice!(Choice9, 9, (T0, _0, 0), (T1, _1, 1), (T2, _2, 2), (T3, _3, 3), (T4, _4, 4), (T5, _5, 5), (T6, _6, 6), (T7, _7, 7), ; (T8, _8, 8));
-    acc_choice!(Choice10, 10, (T0, _0, 0), (T1, _1, 1), (T2, _2, 2), (T3, _3, 3), (T4, _4, 4), (T5, _5, 5), (T6, _6, 6), (T7, _7, 7), (T8, _8, 8), ; (T9, _9, 9));
-    acc_choice!(Choice11, 11, (T0, _0, 0), (T1, _1, 1), (T2, _2, 2), (T3, _3, 3), (T4, _4, 4), (T5, _5, 5), (T6, _6, 6), (T7, _7, 7), (T8, _8, 8), (T9, _9, 9), ; (T10, _10, 10));
-    acc_choice!(Choice12, 12, (T0, _0, 0), (T1, _1, 1), (T2, _2, 2), (T3, _3, 3), (T4, _4, 4), (T5, _5, 5), (T6, _6, 6), (T7, _7, 7), (T8, _8, 8), (T9, _9, 9), (T10, _10, 10), ; (T11, _11, 11));
+    include!(concat!(env!("OUT_DIR"), "/arities.rs"));
 }
 
 // ------------------------------------------------------------------------------------------------
